@@ -183,6 +183,18 @@ let oracles : Detect.oracles = {
   Detect.declared = (fun b -> Declared.any_specified_encoding b);
 }
 
+(* ---------- Cd model: its three oracles are queries ---------- *)
+let cd_oracles : Cd.cd_oracles = {
+  Cd.layers = (fun t ->
+      let a = ask ("Q LAYERS " ^ hex_of_string (utf8_of_text t)) in
+      if a = "-" then [] else SL.map (fun h -> text_of_utf8 (string_of_hex h)) (SS.split_on_char ';' a));
+  Cd.alphabet_langs = (fun popular inl ->
+      parse_langs (ask ("Q ALPH " ^ hex_of_string (utf8_of_text popular) ^ " " ^ (if inl then "1" else "0"))));
+  Cd.popularity = (fun l popular ->
+      let a = ask ("Q POP " ^ ocaml_string l ^ " " ^ hex_of_string (utf8_of_text popular)) in
+      if a = "ERR" then None else Some (f_of_bits (int_of_string a)));
+}
+
 (* ---------- printing matches ---------- *)
 let print_match_line (tag : string) (m : Matches.cmatch) : unit =
   match m with
@@ -290,6 +302,16 @@ let () =
          | None -> print_string "R NONE\n"
          | Some n -> print_string ("R " ^ hex_of_string (ocaml_string n) ^ "\n"));
         flush stdout
+      | ["COHR"; t; thr; langs] ->
+        (match Cd.coherence_ratio fo cd_oracles (text_of_utf8 (string_of_hex t)) (f_of_bits (int_of_string thr)) (parse_langs langs) with
+         | None -> print_string "R ERR\n"
+         | Some c -> print_string ("R OK " ^ print_coh c ^ "\n"));
+        print_string "END\n"; flush stdout
+      | ["MERGEM"; ls] ->
+        let lists = if ls = "-" then [] else SL.map parse_coh (SS.split_on_char ';' ls) in
+        print_string ("R " ^ print_coh (Cd.merge_coherence_ratios fo lists) ^ "\n"); flush stdout
+      | ["FALT"; c] ->
+        print_string ("R " ^ print_coh (Cd.filter_alt fo (parse_coh c)) ^ "\n"); flush stdout
       | ["QUIT"] -> exit 0
       | _ -> failwith ("unknown command " ^ l)
     done
